@@ -95,7 +95,7 @@ theorem wakeup_reopens (cfg : Cfg) (fuel : Nat) (s : St) (w : Nat) (q : List Int
          else setAvail { yieldPt cfg s with wq := q } w true) := by
   have hp : (setAvail { yieldPt cfg s with wq := q } w true).paused = (yieldPt cfg s).paused := by
     unfold setAvail; split <;> rfl
-  simp only [handleWaker, hnf, Option.isSome_none, Bool.false_eq_true, ↓reduceIte, hq, hh, hp]
+  simp only [handleWaker, hnf, Option.isSome_none, Bool.false_eq_true, ↓reduceIte, hq, wakePrim, hh, hp]
 
 /-- the accept loop on a listener stops only because no worker is available any more, or the
 listener has nothing left to accept, or the listener entered its accept-error back-off — it never
